@@ -71,7 +71,23 @@ CLAIM = {
             'user-called generate_impulse_response, repeated setters, shared profile / prototype generator) - '
             'theorems transmission_ignores_old_response, history_position, rest by correspondence / oracle. Sharing '
             'ONE stateful fading generator between two TdlChannels is not covered (the library hands out similar '
-            'generators for that).',
+            'generators for that). '
+            'Second robustness list: R8 (every constructor / method argument positionally and by keyword, defaults '
+            'left out or given explicitly, profile object vs profile + Ts vs tap arrays + Ts, SuMimoChannel / '
+            'TdlMimoChannel vs the plain classes, antennas at construction vs set_num_antennas, set_pathloss() / None '
+            'incl. MuChannel) - theorems constructor_equals_setters, mu_clear_pathloss; forms covered by correspondence '
+            '(exact for one 0 dB tap) and oracle; R9 (numpy integer / 0-d counts and link indexes: fft_size, '
+            'num_samples, antenna counts, number of pairs, rx_idx / tx_idx) - logical values in the model, covered by '
+            'correspondence / oracle; bool and negative indexes are not documented and not covered; R10 (per-transmitter '
+            'LIST of arrays of mixed element types, 1-D next to 1 x N) - correspondence / oracle only; R11 (property reads, '
+            '__repr__, get_freq_response, tap_values, scaling / concatenating / pickling a response, re-discretising) - '
+            'model op `query` + theorem query_leaves_state, observables and twin object in the oracle; plot_* helpers are '
+            'not driven (matplotlib show()); R12 applies only to the order in which the taps of a profile are listed - '
+            'theorem discretize_order_independent, shuffled taps in correspondence and oracle; R13 (discretised child vs '
+            'parent profile, scaled / concatenated responses, deep copies and pickles, continuing on a deep copy) - '
+            'op `fork` (identity in the model), oracle derived-objects; deep copies of multiuser channels with Jakes '
+            'links fail in fading_generators.py (known finding); R14 (257-tap profile, 257-link multiuser channel, '
+            'fft_size 300 every quick run; 258 / 300 / 65537 taps in thorough) - all theorems are size-free.',
 }
 
 SEEDMOD = 1 << 20
@@ -1689,6 +1705,24 @@ def o_history(case):
             sw = bool(op['v'])
         if k == 'setant':
             cur_siso = op['ant'] is None
+            want = (-1, -1) if op['ant'] is None else tuple(op['ant'])
+            if (int(ch.num_rx_antennas), int(ch.num_tx_antennas)) != want:
+                return ('R9:set_num_antennas-ignored:%s' % (op.get('ant_type') or 'int'),
+                        'op %d: antennas are %s x %s, asked for %s' % (oi, ch.num_rx_antennas, ch.num_tx_antennas, want))
+        if k == 'gen':
+            # "generate num_samples samples": the stored response has that many, the generator advanced by that many
+            g = ch._fading_generator
+            adv = None
+            for o0, o1 in zip(before, observe(ch, case)):
+                if isinstance(o0, tuple) and len(o0) == 6:
+                    if o0[3] is not None:
+                        adv = int(round((o1[3] - o0[3]) / g.Ts))
+                    elif o0[4] is not None:
+                        adv = o1[4] - o0[4]
+            ns = ch.get_last_impulse_response().num_samples
+            if ns != op['n'] or (adv is not None and adv != op['n']):
+                return ('R9:generate_impulse_response-count:%s' % (op.get('n_type') or 'int'),
+                        'op %d: asked for %d samples, response has %d, generator advanced by %s' % (oi, op['n'], ns, adv))
         if k not in ('tx', 'fx'):
             continue
         # ---- an accepted transmission: compare with first principles on the responses reported now
@@ -2243,6 +2277,15 @@ def oracles(ctx, n_tx, n_lin, n_disc):
             run_oracle(ctx, 'get_discretize_profile', {'Ts': fr2s(Ts), 'delays': [fr2s(d) for d in ds],
                                                        'powers': [fr2s(p) for p in ps]}, key=('scale', k, pk))
             ctx.branch('oracle:R6:profile-scale')
+    # R14: profiles with more than 256 taps (one in quick, more and 2^16 + 1 in thorough)
+    for ntaps in ((300,) if ctx.tier == 'quick' else (257, 258, 300, 65537)):
+        ds = [Fraction(4 * q + 1, 4) for q in range(ntaps)]
+        if ntaps <= 300:
+            ds[5], ds[6] = ds[6], ds[5]
+        ps = [Fraction(1 + (q % 7), 3) for q in range(ntaps)]
+        run_oracle(ctx, 'get_discretize_profile', {'Ts': '1', 'delays': [fr2s(d) for d in ds],
+                                                   'powers': [fr2s(p) for p in ps]}, key=('taps', ntaps))
+        ctx.branch('oracle:R14:profile-taps>=257')
     # R13: derived objects (profile children, scaled responses, copies and pickles)
     for i in range(6):
         ant = [None, [2, 2], [1, 3]][i % 3]
@@ -2291,7 +2334,7 @@ RTAGS = ['R1:signal-dtype', 'R1:fft-type', 'R1:idx-dtype', 'R1:pl-type', 'R1:pl-
          'R9:count-type', 'R9:index-type', 'R10:heterogeneous-list', 'R11:queries', 'R13:derived-responses',
          'R13:deepcopy-continued', 'R14:count>=257']
 REQUIRED += ['corr:' + t for t in RTAGS] + ['oracle:' + t for t in RTAGS]
-REQUIRED += ['oracle:R13:derived-objects', 'oracle:R12:tap-order', 'corr:R12:tap-order']
+REQUIRED += ['oracle:R13:derived-objects', 'oracle:R12:tap-order', 'corr:R12:tap-order', 'oracle:R14:profile-taps>=257']
 
 
 def check(ctx):
